@@ -18,3 +18,18 @@ pub fn parse_line_col(_msg: &mut String) -> Option<(usize, usize)> {
 pub fn level_off() -> tracing_core::metadata::LevelFilter {
     tracing_core::metadata::LevelFilter::OFF
 }
+
+/// Texts the `ryu::Buffer::format_finite` stub can return (C03 finite-float harnesses): both
+/// encoders call the same third-party function on the same value, so within one harness run it
+/// returns one text, chosen by the harness.
+pub const RYU_TEXTS: [&str; 6] = ["0.0", "-0.0", "1.5", "-2.5e-7", "1e16", "3.4028235e38"];
+static mut RYU_CHOICE: usize = 0;
+
+pub fn set_ryu_choice(i: usize) {
+    unsafe { RYU_CHOICE = i % RYU_TEXTS.len() };
+}
+
+#[cfg(kani)]
+pub fn ryu_format_finite<F: ryu::Float>(_b: &mut ryu::Buffer, _f: F) -> &str {
+    RYU_TEXTS[unsafe { RYU_CHOICE }]
+}
